@@ -191,7 +191,32 @@ def _p_true(a):
 CUSTOM = {
     "le": (_p_le,), "ge": (_p_ge,), "mod": (_p_mod,), "maxlen": (_p_maxlen,),
     "noch": (_p_noch,), "between": (_p_between,), "true": (_p_true,),
+    # whole-container aggregates (kind c_aggn / c_dfaggn): no constraint on a
+    # single element; whether they hold depends on WHICH elements are present
+    "count_ge": (_p_true,), "nunique_ge": (_p_true,), "any_ge": (_p_true,),
+    "any_le": (_p_true,), "mean_ge": (_p_true,), "mean_le": (_p_true,),
 }
+AGG_COUNTING = ("count_ge", "nunique_ge")
+
+
+def zero_of(cls, dtype):
+    """the falsy / origin value of an ordered dtype class"""
+    if cls == "int":
+        return 0
+    if cls == "float":
+        return 0.0
+    if cls == "td":
+        return pd.Timedelta(0)
+    if cls == "dt":
+        tz = tz_of(dtype)
+        return pd.Timestamp(0, tz=tz) if tz else pd.Timestamp(0)
+    raise KeyError(cls)
+
+
+def supports_nulls(f):
+    """nulls can be stored in the field without changing its dtype (numpy
+    int / bool fields are never masked)"""
+    return not (f["cls"] in ("int", "bool") and f["dtype"][0].islower())
 
 
 # --------------------------------------------------------------------------
@@ -216,6 +241,8 @@ def gen_witness(rng, dtype):
             return 0
         return rng.randint(max(lo, -60), min(hi, 60))
     if cls == "float":
+        if rng.random() < 0.06:
+            return 0.0
         return rng.randint(-200, 200) * 0.25
     if cls == "complex":
         return complex(rng.randint(-20, 20) * 0.5, rng.randint(-20, 20) * 0.5)
@@ -242,6 +269,8 @@ def gen_witness(rng, dtype):
         tz = tz_of(dtype)
         return base.tz_localize("UTC").tz_convert(tz) if tz else base
     if cls == "td":
+        if rng.random() < 0.08:
+            return pd.Timedelta(0)
         return pd.Timedelta(rng.randint(-10 ** 6, 10 ** 6) * rng.choice(
             [1, 10 ** 3, 10 ** 9]), unit="ns")
     raise KeyError(cls)
@@ -306,12 +335,15 @@ BUILTIN_KINDS = {
             "str_endswith", "str_length"],
 }
 CUSTOM_KINDS = {
-    "int": ["c_ew", "c_vec", "c_agg", "c_strat"],
-    "float": ["c_ew", "c_vec", "c_agg", "c_strat"],
-    "dt": ["c_ew", "c_vec"], "td": ["c_ew", "c_vec"],
-    "complex": ["c_ew"], "bool": ["c_ew"],
-    "str": ["c_ew", "c_vec", "c_agg"],
+    "int": ["c_ew", "c_vec", "c_agg", "c_strat", "c_aggn"],
+    "float": ["c_ew", "c_vec", "c_agg", "c_strat", "c_aggn"],
+    "dt": ["c_ew", "c_vec", "c_aggn"], "td": ["c_ew", "c_vec", "c_aggn"],
+    "complex": ["c_ew", "c_aggn"], "bool": ["c_ew", "c_aggn"],
+    "str": ["c_ew", "c_vec", "c_agg", "c_aggn"],
 }
+# probability that an ordered bound is put exactly on the zero of the class
+# ("not negative", "not positive": the commonest bounds in real schemas)
+P_ZERO = 0.3
 
 
 def _regex_for(rng, w, full):
@@ -363,6 +395,10 @@ def gen_check(rng, kind, w, cls, dtype, step, base_ok=True):
         d = rng.choice([0, 0, 1, 1, 2, 5, 40]) if kind in ("ge", "le") \
             else rng.choice([1, 1, 2, 5, 40])
         v = nb(-d) if kind in ("gt", "ge") else nb(d)
+        if rng.random() < P_ZERO:
+            z = zero_of(cls, dtype)
+            if {"gt": w > z, "ge": w >= z, "lt": w < z, "le": w <= z}[kind]:
+                v = z
         if not inr(v):
             return None
         name = "min_value" if kind in ("gt", "ge") else "max_value"
@@ -370,6 +406,12 @@ def gen_check(rng, kind, w, cls, dtype, step, base_ok=True):
     if kind == "in_range":
         da, db = rng.choice([0, 1, 1, 2, 3, 10]), rng.choice([0, 1, 1, 2, 3, 10])
         a, b = nb(-da), nb(db)
+        if rng.random() < P_ZERO:
+            z = zero_of(cls, dtype)
+            if z <= w and rng.random() < 0.7:
+                a, da = z, (0 if z == w else 1)
+            elif z >= w:
+                b, db = z, (0 if z == w else 1)
         if not (inr(a) and inr(b)):
             return None
         imin = True if da == 0 else rng.random() < 0.45
@@ -420,11 +462,34 @@ def gen_check(rng, kind, w, cls, dtype, step, base_ok=True):
         return None
     # ---- custom checks --------------------------------------------------
     if kind == "c_strat":
-        a = {"fn": "between", "lo": enc(nb(-rng.choice([0, 1, 3, 20]))),
-             "hi": enc(nb(rng.choice([0, 1, 3, 20])))}
-        if cls == "int" and not (inr(dec(a["lo"])) and inr(dec(a["hi"]))):
-            return None
+        # a check + its own strategy, both made by a factory (closure over the
+        # parameters): every check of one factory shares its code objects
+        if cls == "int" and rng.random() < 0.4:
+            m = rng.choice([2, 3, 5, 7, 10])
+            a = {"fn": "mod", "m": m, "r": int(w) % m}
+        else:
+            a = {"fn": "between", "lo": enc(nb(-rng.choice([0, 1, 3, 20, 200]))),
+                 "hi": enc(nb(rng.choice([0, 1, 3, 20, 200])))}
+            if cls == "int" and not (lo_hi[0] <= dec(a["lo"]) and dec(a["hi"]) <= lo_hi[1]):
+                return None
+        a["ew"] = rng.random() < 0.4
         return {"k": "c_strat", "a": a}
+    if kind == "c_aggn":
+        # aggregate over the whole container whose verdict depends on which
+        # elements are present (n is set by fix_aggregates once the size is known)
+        fns = ["count_ge", "nunique_ge"]
+        if cls in ORDERED:
+            fns += ["any_ge", "any_le"]
+        if cls in ("int", "float"):
+            fns += ["mean_ge", "mean_le"]
+        fn = rng.choice(fns)
+        a = {"fn": fn}
+        if fn in AGG_COUNTING:
+            a["n"] = 1
+        else:
+            d = rng.choice([0, 0, 1, 5])
+            a["b"] = enc(nb(-d) if fn.endswith("_ge") else nb(d))
+        return {"k": "c_aggn", "a": a}
     if kind in ("c_ew", "c_vec", "c_agg"):
         if cls == "str":
             opts = [{"fn": "maxlen", "n": len(w) + rng.choice([0, 1, 4, 30])}]
@@ -468,7 +533,7 @@ def pick_dtype(rng, classes=None):
 
 
 def gen_field(rng, dtype=None, name=None, n_checks=None, p_custom=0.18,
-              allow_flags=True, witness=None):
+              allow_flags=True, witness=None, force=()):
     dtype = dtype or pick_dtype(rng)
     cls = CLASS_OF[dtype]
     w = gen_witness(rng, dtype) if witness is None else witness
@@ -486,10 +551,23 @@ def gen_field(rng, dtype=None, name=None, n_checks=None, p_custom=0.18,
             if c is not None and holds(c, w):
                 chain.append(c)
                 break
+    for kind in force:
+        for _try in range(8):
+            c = gen_check(rng, kind, w, cls, dtype, step)
+            if c is not None and holds(c, w):
+                if len(chain) >= 3:
+                    chain.pop(rng.randrange(len(chain)))
+                chain.insert(0 if rng.random() < 0.5 else rng.randrange(len(chain) + 1), c)
+                break
     if rng.random() < 0.55:
         # the documented advice: most restrictive check first (otherwise the
         # chain is still valid, but hypothesis rarely finds an example)
         chain.sort(key=lambda c: RANK.get(c["k"], 5))
+    if cls in ("dt", "td"):
+        for c in chain:
+            how = rng.choice(["pd", "pd", "pd", "pd", "py", "np", "np"])
+            if c["k"] in ARG_KIND_CHECKS and how != "pd" and _arg_kind_ok(c, how, dtype):
+                c["as"] = how
     cands = neighbours(rng, w, cls, dtype, step)
     for c in chain:      # isin lists contribute candidates as well
         if c["k"] == "isin":
@@ -499,12 +577,49 @@ def gen_field(rng, dtype=None, name=None, n_checks=None, p_custom=0.18,
     assert support >= 1, (dtype, w, chain)
     f = {"dtype": dtype, "cls": cls, "witness": enc(w), "checks": chain,
          "nullable": False, "unique": False, "name": name, "regex": False,
-         "support": support}
+         "support": support, "step": step}
     if allow_flags:
         r = rng.random()
         f["nullable"] = r < 0.35
         f["unique"] = 0.2 < r < 0.5          # 0.2..0.35: both flags
+        if (f["nullable"] and supports_nulls(f) and len(chain) < 3
+                and not any(c["k"] == "c_aggn" for c in chain) and rng.random() < 0.15):
+            # nulls + an aggregate that is evaluated on the non-null elements
+            c = gen_check(rng, "c_aggn", w, cls, dtype, step)
+            chain.insert(rng.randrange(len(chain) + 1), c)
     return f
+
+
+# time arguments can be handed to Check.* as pandas, python or numpy objects
+ARG_KIND_CHECKS = {"eq", "ne", "gt", "ge", "lt", "le", "in_range", "isin", "notin"}
+
+
+def _flat_args(c):
+    out = []
+    for x in c["a"].values():
+        x = dec(x)
+        out.extend(x if isinstance(x, list) else [x])
+    return [x for x in out if isinstance(x, (pd.Timestamp, pd.Timedelta))]
+
+
+def _arg_kind_ok(c, how, dtype):
+    vals = _flat_args(c)
+    if not vals:
+        return False
+    if how == "np":           # numpy datetimes carry no time zone
+        return tz_of(dtype) is None
+    # datetime.datetime / datetime.timedelta have microsecond resolution
+    return all(v.value % 1000 == 0 for v in vals)
+
+
+def as_kind(x, how):
+    if isinstance(x, list):
+        return [as_kind(y, how) for y in x]
+    if isinstance(x, pd.Timestamp):
+        return x.to_pydatetime() if how == "py" else x.to_datetime64()
+    if isinstance(x, pd.Timedelta):
+        return x.to_pytimedelta() if how == "py" else x.to_timedelta64()
+    return x
 
 
 # --------------------------------------------------------------------------
@@ -671,29 +786,36 @@ def gen_case(rng, kind=None, family=None):
         case["size"] = size
         return case
 
+    # a factory-made check + strategy (closure over its parameters) on the
+    # first field of some cases: see gen_followers
+    fkw = {}
+    if rng.random() < 0.07:
+        fkw = {"dtype": pick_dtype(rng, ["int", "float"]), "force": ("c_strat",)}
     if kind == "series":
-        f = gen_field(rng, name=rng.choice([None, "s"]))
+        f = gen_field(rng, name=rng.choice([None, "s"]), **fkw)
         case["fields"] = [f]
         case["index"] = None
         if rng.random() < 0.2:
             case["index"] = gen_index_spec(rng)
         case["size"] = _size_for(rng, [f] + _ix_fields(case["index"]), zero_ok=False)
     elif kind == "column":
-        f = gen_field(rng, name=rng.choice(["c", "col 1", "a.b"]))
+        f = gen_field(rng, name=rng.choice(["c", "col 1", "a.b"]), **fkw)
         case["fields"] = [f]
         case["size"] = _size_for(rng, [f], zero_ok=False)
     elif kind == "index":
-        f = gen_field(rng, name=rng.choice([None, "ix"]))
+        f = gen_field(rng, name=rng.choice([None, "ix"]), **fkw)
         case["fields"] = [f]
         case["size"] = _size_for(rng, [f])
     elif kind == "multiindex":
         n = rng.choice([2, 2, 3])
         named = rng.random() < 0.8
-        fs = [gen_field(rng, name=(f"l{i}" if named else None)) for i in range(n)]
+        fs = [gen_field(rng, name=(f"l{i}" if named else None), **(fkw if i == 0 else {}))
+              for i in range(n)]
         case["fields"] = fs
         case["size"] = _size_for(rng, fs)
     else:
-        gen_frame(rng, case)
+        gen_frame(rng, case, fkw)
+    fix_aggregates(rng, case)
     if case["mode"] == "example" and any(
             c["k"] in FALLBACK_ONLY for f in case["fields"] + _ix_fields(case.get("index"))
             for c in f["checks"]) or any(c["k"] in FALLBACK_ONLY for c in case.get("df_checks") or []):
@@ -703,7 +825,98 @@ def gen_case(rng, kind=None, family=None):
     return case
 
 
-FALLBACK_ONLY = {"c_vec", "c_agg", "c_dfvec", "c_dfagg"}
+FALLBACK_ONLY = {"c_vec", "c_agg", "c_dfvec", "c_dfagg", "c_aggn", "c_dfaggn"}
+CUSTOM_FIELD_KINDS = {"c_ew", "c_vec", "c_agg", "c_strat", "c_aggn"}
+
+
+def fix_aggregates(rng, case):
+    """counting aggregates ask for at most as many elements as the container
+    will have (size None: hypothesis chooses the length; ask for little)"""
+    size = case["size"]
+    m = 2 if size is None else size
+    for f in list(case["fields"]) + _ix_fields(case.get("index")):
+        for c in f["checks"]:
+            if c["k"] == "c_aggn" and c["a"]["fn"] in AGG_COUNTING:
+                n = rng.randint(1, max(1, m))
+                if c["a"]["fn"] == "nunique_ge":
+                    n = min(n, f["support"])
+                c["a"]["n"] = min(n, m)
+    for c in case.get("df_checks") or []:
+        if c["k"] == "c_dfaggn":
+            c["a"]["n"] = rng.randint(0, m * len(case["fields"]))
+
+
+def has_custom(case):
+    return any(c["k"] in CUSTOM_FIELD_KINDS
+               for f in list(case["fields"]) + _ix_fields(case.get("index"))
+               for c in f["checks"])
+
+
+def sibling(rng, case):
+    """the same schema made by the same factories with other parameters: every
+    custom check of every field is drawn again around the SAME witness (so the
+    rest of the chain stays valid); names, dtypes, flags, builtin checks and
+    the code objects of the custom checks are identical"""
+    import copy
+    case = copy.deepcopy(case)
+    for f in list(case["fields"]) + _ix_fields(case.get("index")):
+        if "step" not in f or f["witness"] is None:
+            continue
+        w, cls, dtype, step = dec(f["witness"]), f["cls"], f["dtype"], f["step"]
+        for i, c in enumerate(f["checks"]):
+            if c["k"] not in CUSTOM_FIELD_KINDS:
+                continue
+            for _try in range(12):
+                c2 = gen_check(rng, c["k"], w, cls, dtype, step)
+                if (c2 is not None and c2["a"]["fn"] == c["a"]["fn"] and holds(c2, w)
+                        and c2["a"].get("ew") == c["a"].get("ew") and c2 != c):
+                    f["checks"][i] = c2
+                    break
+        cands = neighbours(rng, w, cls, dtype, step)
+        for c in f["checks"]:
+            if c["k"] == "isin":
+                cands = cands + [x for x in dec(c["a"]["allowed_values"])
+                                 if not any(x == y for y in cands)]
+        f["support"] = max(1, chain_support(f["checks"], cands))
+    _reclip(case)
+    fix_aggregates(rng, case)
+    return case
+
+
+def _reclip(case):
+    uniq = [f for f in list(case["fields"]) + _ix_fields(case.get("index"))
+            if f["unique"] or (case.get("df_unique") and f["name"] in case["df_unique"])]
+    cap = min([f["support"] for f in uniq] or [99])
+    if case["size"] is None:
+        if cap < 8:
+            case["size"] = min(cap, 2)
+    else:
+        case["size"] = min(case["size"], cap)
+
+
+def gen_followers(rng, case):
+    """cases executed right after ``case`` in the same process: strategies are
+    built per schema, whatever was built before must not leak into them.
+      params: sibling schemas (same factories, other parameters)
+      resize: the SAME schema object asked for another size"""
+    out = []
+    if case["family"] != "sat":
+        return out
+    if has_custom(case) and rng.random() < 0.3:
+        prev = case
+        for _ in range(rng.choice([1, 1, 2])):
+            prev = sibling(rng, prev)
+            out.append(dict(prev, follows="params"))
+    elif rng.random() < 0.05:
+        import copy
+        c2 = copy.deepcopy(case)
+        sizes = [z for z in (1, 2, 3, 4, 5) if z != case["size"]]
+        c2["size"] = rng.choice(sizes)
+        _reclip(c2)
+        fix_aggregates(rng, c2)
+        if c2["size"] != case["size"]:
+            out.append(dict(c2, follows="resize"))
+    return out
 
 
 def gen_cold_case(rng, j):
@@ -754,7 +967,8 @@ def gen_index_spec(rng):
             "fields": [gen_field(rng, name=f"l{i}") for i in range(n)]}
 
 
-def gen_frame(rng, case):
+def gen_frame(rng, case, fkw=None):
+    fkw = fkw or {}
     ncols = rng.choice([1, 2, 2, 3])
     df_checks = []
     fields = []
@@ -775,7 +989,7 @@ def gen_frame(rng, case):
         df_checks = gen_df_checks(rng, cls, dts, ws)
     else:
         for i in range(ncols):
-            f = gen_field(rng, name=f"c{i}")
+            f = gen_field(rng, name=f"c{i}", **(fkw if i == 0 else {}))
             if rng.random() < 0.12:
                 f["regex"] = True
                 f["name"] = rng.choice(REGEX_NAMES).format(i=i)
@@ -811,7 +1025,8 @@ def gen_df_checks(rng, cls, dts, ws):
             opts = [{"k": "ne", "a": {"value": "zz"}},
                     {"k": "isin", "a": {"allowed_values": sorted(set(ws)) + ["zz"]}},
                     {"k": "notin", "a": {"forbidden_values": ["zz", "q q"]}},
-                    {"k": "c_dfvec", "a": {"fn": "maxlen", "n": mx + 3}}]
+                    {"k": "c_dfvec", "a": {"fn": "maxlen", "n": mx + 3}},
+                    {"k": "c_dfaggn", "a": {"fn": "count_ge", "n": 0}}]
             c = rng.choice(opts)
         else:
             lo, hi = min(ws), max(ws)
@@ -831,7 +1046,8 @@ def gen_df_checks(rng, cls, dts, ws):
                     {"k": "c_dfew", "a": {"fn": "le", "b": enc(b)}},
                     {"k": "c_dfew", "a": {"fn": "ge", "b": enc(a)}},
                     {"k": "c_dfvec", "a": {"fn": "ge", "b": enc(a)}},
-                    {"k": "c_dfagg", "a": {"fn": "le", "b": enc(b)}}]
+                    {"k": "c_dfagg", "a": {"fn": "le", "b": enc(b)}},
+                    {"k": "c_dfaggn", "a": {"fn": "count_ge", "n": 0}}]
             if d:
                 opts.append({"k": "ne", "a": {"value": enc(a)}})
                 opts.append({"k": "gt", "a": {"min_value": enc(a)}})
@@ -853,8 +1069,15 @@ def build_check(chk, dtype=None):
     import pandera as pa
     k, a = chk["k"], {n: dec(x) for n, x in chk["a"].items()}
     if not k.startswith("c_"):
+        if chk.get("as"):
+            a = {n: as_kind(x, chk["as"]) for n, x in a.items()}
         return getattr(pa.Check, k)(**a)
     raw = CUSTOM[chk["a"]["fn"]][0](chk["a"])
+    if k == "c_aggn":
+        return pa.Check(_aggregate(chk["a"]["fn"], a), name=f"c_aggn_{chk['a']['fn']}")
+    if k == "c_dfaggn":
+        n = a["n"]
+        return pa.Check(lambda df: int(df.count().sum()) >= n, name="c_dfaggn_count_ge")
 
     def pred(x):
         # null tolerant: whether pandera hands nulls to a custom check depends
@@ -886,8 +1109,18 @@ def build_check(chk, dtype=None):
         return pa.Check(lambda df: bool(all(pred(x) for col in df for x in df[col])),
                         name=f"c_dfagg_{chk['a']['fn']}")
     if k == "c_strat":
-        import hypothesis.strategies as st
-        from pandera import strategies as pst
+        return _factory_check(chk["a"]["fn"], a, pred)
+    raise KeyError(k)
+
+
+def _factory_check(fn, a, pred):
+    """custom check + custom strategy, the documented pattern; the functions
+    are closures, so all checks of one (fn, element_wise) family share their
+    code objects and differ in the captured parameters only"""
+    import hypothesis.strategies as st
+    import pandera as pa
+    from pandera import strategies as pst
+    if fn == "between":
         lo, hi = a["lo"], a["hi"]
 
         def strat(pandera_dtype, strategy=None):
@@ -897,9 +1130,44 @@ def build_check(chk, dtype=None):
                 return base.map(pst.to_numpy_dtype(pandera_dtype).type)
             return strategy.filter(lambda v: lo <= v <= hi)
 
-        return pa.Check(lambda s: s.between(lo, hi), strategy=strat,
-                        name="c_strat_between")
-    raise KeyError(k)
+        vec = lambda s: s.between(lo, hi)       # noqa: E731
+    elif fn == "mod":
+        m, r = a["m"], a["r"]
+
+        def strat(pandera_dtype, strategy=None):
+            if strategy is None:
+                np_dtype = pst.to_numpy_dtype(pandera_dtype)
+                info = np.iinfo(np_dtype)
+                qlo, qhi = -((r - int(info.min)) // m), (int(info.max) - r) // m
+                return st.integers(max(qlo, -1000), min(qhi, 1000)).map(
+                    lambda q: q * m + r).map(np_dtype.type)
+            return strategy.filter(lambda v: int(v) % m == r)
+
+        vec = lambda s: s.map(pred).astype(bool)    # noqa: E731
+    else:
+        raise KeyError(fn)
+    if a.get("ew"):
+        return pa.Check(pred, element_wise=True, strategy=strat, name=f"c_strat_{fn}")
+    return pa.Check(vec, strategy=strat, name=f"c_strat_{fn}")
+
+
+def _aggregate(fn, a):
+    """scalar verdict over the container validate() hands to the check (for
+    field checks: the non-null elements)"""
+    n, b = a.get("n"), a.get("b")
+    if fn == "count_ge":
+        return lambda s: int(s.notna().sum()) >= n
+    if fn == "nunique_ge":
+        return lambda s: int(s.nunique()) >= n
+    if fn == "any_ge":
+        return lambda s: bool((s.dropna() >= b).any())
+    if fn == "any_le":
+        return lambda s: bool((s.dropna() <= b).any())
+    if fn == "mean_ge":
+        return lambda s: len(s.dropna()) > 0 and bool(float(s.dropna().mean()) >= b)
+    if fn == "mean_le":
+        return lambda s: len(s.dropna()) > 0 and bool(float(s.dropna().mean()) <= b)
+    raise KeyError(fn)
 
 
 def _common(f):
@@ -1003,4 +1271,29 @@ def directed_cases():
         _case("index", [_F("int64", [chk("in_range", min_value=0, max_value=9, include_min=True,
                                          include_max=True),
                                      ("c_vec", {"fn": "mod", "m": 2, "r": 0})], witness=4)], 3),
+        # nulls are inserted before the whole-container filters judge the data
+        _case("series", [_F("float64", [chk("in_range", min_value=-10.0, max_value=10.0,
+                                            include_min=True, include_max=True),
+                                        ("c_aggn", {"fn": "count_ge", "n": 2})],
+                            nullable=True, witness=1.0)], 3),
+        _case("column", [_F("str", [("c_aggn", {"fn": "nunique_ge", "n": 2})], nullable=True,
+                            name="c", witness="a")], 3),
+        _case("frame", [_F("float64", [("c_aggn", {"fn": "mean_ge", "b": 0.0})], nullable=True,
+                           name="a", witness=1.0)], 3),
+        # bounds exactly on the zero of the class
+        _case("series", [_F("timedelta64[ns]", [chk("ge", min_value=pd.Timedelta(0))],
+                            witness=pd.Timedelta(1, unit="s"))], 3),
+        _case("index", [_F("timedelta64[ns]", [chk(
+            "in_range", min_value=pd.Timedelta(-1, unit="D"), max_value=pd.Timedelta(0),
+            include_min=True, include_max=True)], witness=pd.Timedelta(-1, unit="s"))], 3),
+        _case("frame", [_F("float64", [chk("le", max_value=0.0)], name="a", witness=-1.0),
+                        _F("int64", [chk("ge", min_value=0)], name="b", witness=1)], 3),
+        # a SEQUENCE: two schemas made by the same check+strategy factory
+        [_case("series", [_F("int64", [("c_strat", {"fn": "between", "lo": lo, "hi": lo + 5,
+                                                    "ew": False})], witness=lo + 1)], 3)
+         for lo in (0, 100)],
+        [_case("frame", [_F("int64", [chk("ge", min_value=0),
+                                      ("c_strat", {"fn": "mod", "m": m, "r": 0, "ew": True})],
+                            name="a", witness=0)], 2)
+         for m in (3, 7)],
     ]
